@@ -46,6 +46,8 @@ class LabelCodec(object):
             return h * 0.5
         if kind == "s":
             return "k%04d" % (h + 5000)
+        if kind == "n":
+            return None
         raise ValueError(kind)
 
     def tol(self, t, kind):
@@ -57,6 +59,8 @@ class LabelCodec(object):
 
     def dec(self, x):
         """concrete label -> (h, kind) or raise Unprojectable"""
+        if x is None:
+            return 0, "n"
         if isinstance(x, (str, np.str_)):
             if len(x) == 5 and x[0] == "k" and x[1:].isdigit():
                 return int(x[1:]) - 5000, "s"
@@ -78,6 +82,8 @@ class LabelCodec(object):
             return np.array(vals, dtype=int)
         if kind == "f":
             return np.array(vals, dtype=float)
+        if kind == "n":
+            return np.array(vals, dtype=object)
         return np.array(vals, dtype=object) if not vals else np.array(vals)
 
     def dec_axis(self, values):
